@@ -136,6 +136,15 @@ class Sim:
         self.crashed = False
         self.monitors = []  # callables(sim, op, paths, info) run inline at every fs effect
         self.tainted = set()  # (node name, relpath) touched by tracked external faults
+        self.ready_at_start = {}
+        self.cur_task = None
+        self.completed_by_daemon, self.removed_by_daemon = set(), set()
+        self.delete_hooks = []  # callables(node row, copies) run when update_delete hands copies to io.delete
+        self.interleave = None  # (host A, host B): run one iteration of B in the middle of A's next delete task
+        self.in_nested = False
+        self.nested_ran = False
+        self.step_no = 0
+        self.just_completed = set()
         D._reserved_bytes.clear()
         pool.global_abort.clear()
         self._build(spec)
@@ -143,6 +152,7 @@ class Sim:
         install()
         self._wrap_serial_io()
         self._wrap_sql()
+        self._wrap_tasks()
 
     # ---- world -------------------------------------------------------------------------------------------------
     def _build(self, spec):
@@ -208,6 +218,11 @@ class Sim:
             raise Crash()
 
     def on_fs(self, op, paths, info):
+        if (self.interleave and not self.in_nested and op == "unlink" and (self.cur_task or "").startswith("Delete copies")
+                and self.cur_host == self.interleave[0]):
+            a, b = self.interleave
+            self.interleave = None
+            self._nested(a, b)
         self._tick(op)
         e = {"op": op, "paths": paths, "host": self.cur_host, **({"mode": info["mode"]} if "mode" in info else {})}
         for m in self.monitors:
@@ -230,6 +245,38 @@ class Sim:
             return sim.orig_sql(sql, params, *a, **k)
 
         self.sdb.execute_sql = execute_sql
+
+    def _wrap_tasks(self):
+        from alpenhorn.scheduler.task import Task
+        from alpenhorn.io.default import DefaultNodeIO
+
+        if not hasattr(Task, "_verif_orig_call"):
+            Task._verif_orig_call = Task.__call__
+            DefaultNodeIO._verif_orig_delete = DefaultNodeIO.delete
+
+            def call(task):
+                sim = _state["sim"]
+                if sim is None:
+                    return Task._verif_orig_call(task)
+                prev = sim.cur_task
+                sim.cur_task = str(task)
+                try:
+                    return Task._verif_orig_call(task)
+                finally:
+                    sim.cur_task = prev
+
+            def delete(io, copies):
+                sim = _state["sim"]
+                if sim is not None:
+                    for hk in sim.delete_hooks:
+                        hk(io.node, copies)
+                return DefaultNodeIO._verif_orig_delete(io, copies)
+
+            Task.__call__ = call
+            DefaultNodeIO.delete = delete
+
+    def init_requested(self, node):
+        return w.ArchiveFileImportRequest.select().where(w.ArchiveFileImportRequest.node == node, w.ArchiveFileImportRequest.path == "ALPENHORN_NODE").count() > 0
 
     def _wrap_serial_io(self):
         U = self.U
@@ -276,10 +323,42 @@ class Sim:
         self.hosts[hostname] = h
         return h
 
+    def _nested(self, a, b):
+        """host b runs a whole iteration while host a is between the count and the unlink of a delete"""
+        saved = (self.effects, self.sqllog, self.cur_task, self.crash_at, self.ncalls)
+        self.in_nested = True
+        try:
+            self.nested_result = self._iterate(b)
+        finally:
+            self.in_nested = False
+            self.nested_ran = True
+            self.effects, self.sqllog, self.cur_task, self.crash_at, self.ncalls = saved
+            w.config.config["base"]["hostname"] = a
+            self.cur_host = a
+            self.recording = True
+
     def iterate(self, hostname, crash_at=None, sql_fault_at=None):
+        self.step_no += 1
+        self.nested_ran = False
+        before = {"req": {r.id: bool(r.completed) for r in w.ArchiveFileCopyRequest.select()}, "copy": {c.id: c.has_file for c in w.ArchiveFileCopy.select()}}
+        res = self._iterate(hostname, crash_at, sql_fault_at)
+        self.just_completed = set()
+        for r in w.ArchiveFileCopyRequest.select():
+            if r.completed and not before["req"].get(r.id, False):
+                self.completed_by_daemon.add(r.id)
+                self.just_completed.add(r.id)
+        for c in w.ArchiveFileCopy.select():
+            if c.has_file == "N" and before["copy"].get(c.id, "N") != "N":
+                self.removed_by_daemon.add(c.id)
+            elif c.has_file != "N":
+                self.removed_by_daemon.discard(c.id)
+        return res
+
+    def _iterate(self, hostname, crash_at=None, sql_fault_at=None):
         """one pass of update_loop on `hostname` (dispatch + all queued tasks, serially)"""
         w.config.config["base"]["hostname"] = hostname
         self.cur_host = hostname
+        self.ready_at_start[hostname] = self.local_ready_nodes(hostname)
         self.effects, self.sqllog = [], []
         self.crash_at, self.sql_fault_at, self.ncalls, self.crashed = crash_at, sql_fault_at, 0, False
         h = self.hosts.get(hostname)
